@@ -218,6 +218,117 @@ Section Sig.
     (MSeq true [MInt 1] <> MSeq false [MInt 1] /\ canon_md (MSeq true [MInt 1]) = canon_md (MSeq false [MInt 1])).
   Proof. repeat split; try discriminate; reflexivity. Qed.
 
+  (** ** the repaired canonicalisation (fixes/C15-canonicalize-metadata.diff): scalar leaves are rendered
+      with repr(), arrays with tolist()/dtype/shape; [tag = true] additionally models the extension
+      fixes/C11-sequence-type-tag.diff (a list/tuple is prefixed with its type name) *)
+  Inductive leaf := LInt (z : Z) | LFloat (r : string) | LStr (s : string) | LNone | LBool (b : bool) | LArr (a : Arr).
+  Variable rleaf : leaf -> string.                      (* repr of a leaf / the ndarray rendering *)
+
+  Fixpoint canon_md2 (tag : bool) (m : mval) : tok :=
+    match m with
+    | MInt z => KStr (rleaf (LInt z))
+    | MFloat r => KStr (rleaf (LFloat r))
+    | MStr s => KStr (rleaf (LStr s))
+    | MNone => KStr (rleaf LNone)
+    | MBool b => KStr (rleaf (LBool b))
+    | MArr a => KStr (rleaf (LArr a))
+    | MSeq f l => KTup ((if tag then [KStr (if f then "list" else "tuple")] else []) ++ map (canon_md2 tag) l)
+    | MDict l => KTup (map (fun kv => KTup [KStr (fst kv); canon_md2 tag (snd kv)]) l)
+    end.
+
+  (** same CONTAINER skeleton (list vs tuple vs dict); scalar leaves and arrays are unconstrained *)
+  Fixpoint container_eq (a b : mval) : bool :=
+    match a, b with
+    | MSeq f1 l1, MSeq f2 l2 =>
+        Bool.eqb f1 f2 &&
+        (fix go (l1 l2 : list mval) : bool :=
+           match l1, l2 with
+           | [], [] => true
+           | x :: l1', y :: l2' => container_eq x y && go l1' l2'
+           | _, _ => false
+           end) l1 l2
+    | MDict l1, MDict l2 =>
+        (fix go (l1 l2 : list (string * mval)) : bool :=
+           match l1, l2 with
+           | [], [] => true
+           | (_, x) :: l1', (_, y) :: l2' => container_eq x y && go l1' l2'
+           | _, _ => false
+           end) l1 l2
+    | MSeq _ _, _ | MDict _, _ | _, MSeq _ _ | _, MDict _ => false
+    | _, _ => true
+    end.
+
+  Section RepairedInjectivity.
+    (** one injective renderer for all leaves: repr of ints, floats, strs, None, bools and the ndarray
+        rendering are injective and have pairwise disjoint images *)
+    Hypothesis rleaf_inj : forall x y, rleaf x = rleaf y -> x = y.
+
+    Theorem C11_canon_md2_inj : forall tag a b,
+      (tag = true \/ container_eq a b = true) -> canon_md2 tag a = canon_md2 tag b -> a = b.
+    Proof.
+      intros tag.
+      induction a as [z | r | s | | b0 | a0 | f l IH | l IH] using mval_ind';
+        intros [z' | r' | s' | | b' | a' | f' l' | l'] Hc E; simpl in E; try reflexivity;
+        try (injection E as E; apply rleaf_inj in E; first [discriminate E | injection E as E; congruence | reflexivity]);
+        try discriminate E;
+        try (destruct tag; simpl in E; discriminate E).
+      - (* seq / seq *)
+        assert (Hf : f = f' /\ map (canon_md2 tag) l = map (canon_md2 tag) l' /\
+                     (tag = true \/ (fix go (l1 l2 : list mval) : bool :=
+                        match l1, l2 with [], [] => true | x :: l1', y :: l2' => container_eq x y && go l1' l2'
+                                     | _, _ => false end) l l' = true)).
+        { destruct tag; simpl in E.
+          - injection E as E1 E2. split; [destruct f, f'; try reflexivity; discriminate | split; [exact E2 | left; reflexivity]].
+          - injection E as E. destruct Hc as [Hc | Hc]; [discriminate|]. simpl in Hc.
+            apply andb_true_iff in Hc. destruct Hc as [H1 H2]. apply Bool.eqb_prop in H1.
+            split; [exact H1 | split; [exact E | right; exact H2]]. }
+        destruct Hf as [Hf [Hm Hg]]. subst f'. f_equal. clear E Hc. revert l' Hm Hg.
+        induction IH as [|x l Hx _ IHl]; destruct l' as [|y l']; simpl; intros Hm Hg; try reflexivity; try discriminate.
+        injection Hm as E1 E2. f_equal.
+        + apply Hx; [| exact E1]. destruct Hg as [Hg | Hg]; [left; exact Hg | right].
+          apply andb_true_iff in Hg. apply Hg.
+        + apply IHl; [exact E2|]. destruct Hg as [Hg | Hg]; [left; exact Hg | right].
+          apply andb_true_iff in Hg. apply Hg.
+      - (* seq / dict *)
+        destruct tag; simpl in E.
+        + destruct l' as [|[k v] l']; simpl in E; discriminate E.
+        + destruct Hc as [Hc | Hc]; discriminate Hc.
+      - (* dict / seq *)
+        destruct tag; simpl in E.
+        + destruct l as [|[k v] l]; simpl in E; discriminate E.
+        + destruct Hc as [Hc | Hc]; discriminate Hc.
+      - (* dict / dict *)
+        f_equal. injection E as E. simpl in Hc. revert l' Hc E.
+        induction IH as [|[k x] l Hx _ IHl]; destruct l' as [|[k' y] l']; simpl; intros Hc E; try reflexivity; try discriminate.
+        injection E as E0 E1 E2. f_equal.
+        + f_equal; [exact E0|]. apply Hx; [| exact E1]. destruct Hc as [Hc | Hc]; [left; exact Hc | right].
+          apply andb_true_iff in Hc. apply Hc.
+        + apply IHl; [| exact E2]. destruct Hc as [Hc | Hc]; [left; exact Hc | right].
+          apply andb_true_iff in Hc. apply Hc.
+    Qed.
+
+    (** with the repaired rendering the TYPE of a scalar leaf can no longer be confused ... *)
+    Corollary C11_repaired_leaves_distinct :
+      canon_md2 false (MInt 3) <> canon_md2 false (MStr (str_int 3)) /\
+      canon_md2 false MNone <> canon_md2 false (MStr "None") /\
+      canon_md2 false (MBool true) <> canon_md2 false (MStr "True").
+    Proof.
+      repeat split; intro E; apply (C11_canon_md2_inj false) in E; try discriminate E; right; reflexivity.
+    Qed.
+
+    (** ... and with the type tag canonicalisation is injective outright *)
+    Corollary C11_canon_md2_inj_tagged : forall a b, canon_md2 true a = canon_md2 true b -> a = b.
+    Proof. intros a b. apply C11_canon_md2_inj. left; reflexivity. Qed.
+  End RepairedInjectivity.
+
+  (** what the repaired rendering (without the tag) still identifies: list vs tuple, and a dict whose key is
+      the repr of a string vs a sequence of (key, value) pairs *)
+  Theorem C11_repaired_sequence_type_refuted :
+    (MSeq true [MInt 1] <> MSeq false [MInt 1] /\ canon_md2 false (MSeq true [MInt 1]) = canon_md2 false (MSeq false [MInt 1])) /\
+    (forall k v, MDict [(rleaf (LStr k), v)] <> MSeq true [MSeq false [MStr k; v]] /\
+                 canon_md2 false (MDict [(rleaf (LStr k), v)]) = canon_md2 false (MSeq true [MSeq false [MStr k; v]])).
+  Proof. split; [split; [discriminate | reflexivity] | intros k v; split; [discriminate | reflexivity]]. Qed.
+
   (** ** integrals and forms *)
   Inductive sdid := SInt (z : Z) | SStr (s : string) | STup (l : list Z).   (* subdomain id *)
   Definition sdid_tok (s : sdid) : tok :=
@@ -298,6 +409,10 @@ Print Assumptions C11_sound.
 Print Assumptions C11_sound_metadata_typed.
 Print Assumptions C11_signature_collision_from_array_str.
 Print Assumptions C11_signature_collision_untyped.
+Print Assumptions C11_canon_md2_inj.
+Print Assumptions C11_canon_md2_inj_tagged.
+Print Assumptions C11_repaired_leaves_distinct.
+Print Assumptions C11_repaired_sequence_type_refuted.
 
 (** executable instances for the generated correspondence (coq/Gen/C11_*.v): arrays are represented by
     their real str() (the oracle), ints are printed by a Gallina decimal printer *)
@@ -305,4 +420,16 @@ Definition z_str (z : Z) : string :=
   match z with Z0 => "0" | Zpos p => dec (Npos p) | Zneg p => String "-" (dec (Npos p)) end.
 Definition md_tok (m : mval string) : tok unit :=
   canon_md unit string (fun s => s) z_str (fun s => s) m.
-Check md_tok.
+(** repaired rendering: strings are quoted, floats/arrays are given by their real rendering *)
+Definition rleaf_exec (l : leaf string) : string :=
+  match l with
+  | LInt _ z => z_str z
+  | LFloat _ r => r
+  | LStr _ s => String "'" (s ++ "'")
+  | LNone _ => "None"
+  | LBool _ b => if b then "True" else "False"
+  | LArr _ a => a
+  end.
+Definition md_tok2 (tag : bool) (m : mval string) : tok unit :=
+  canon_md2 unit string rleaf_exec tag m.
+Check md_tok2.
